@@ -726,7 +726,7 @@ func addrlistPart(rep *core.Report, col *collector) {
 	}()})
 	if total.evicted == 0 || total.refreshed == 0 || total.popHit == 0 || total.popEmpty == 0 || total.resetNonEmpty == 0 ||
 		total.filtered[admPort0] == 0 || total.filtered[admOwn] == 0 || total.filtered[admOwnIP] == 0 || total.filtered[admBlocked] == 0 {
-		core.HarnessError("addrlist part vacuous: %+v", total)
+		rep.Vacuous("addrlist part vacuous: %+v", total)
 	}
 }
 
